@@ -21,7 +21,11 @@ LEVEL_TEXT = ("Unbounded proof: for every str (any length, code points 0..0x10FF
               "the str; the literal is printable ASCII. The string() model is compared with the real writer.string and "
               "Writer.visit_constant on every BMP code point (in 64-character strings), sampled supplementary "
               "characters and random strings on every run; the Python transcription of the lexer used as oracle is "
-              "compared with the Coq lexer on random texts and with javac on generated literals.")
+              "compared with the Coq lexer on random texts and with javac on generated literals. The path in front of "
+              "string() is exercised too, outside the model: generated DEX files whose methods return string constants "
+              "(every escape class, unpaired surrogates, supplementary characters, texts that look like escapes) are "
+              "decompiled with DvMethod and DvClass and the literal in the source, read by the lexer transcription, has "
+              "to denote the code units of the DEX string.")
 LEVEL_NOTE = ("Trusted: Coq kernel (vm_compute for the 65536-unit sweeps); coq/Dad/JStringModel.v as a rendering of "
               "string() (str as code points, '%x' of a nibble, str.encode('unicode-escape') of \\r \\n \\t); "
               "coq/Dad/JavaLex.v as the meaning of JLS 3.3/3.10.5/3.10.7 (validated against the installed javac 17 on "
@@ -369,3 +373,81 @@ STREAMS = [
         "nontrivial": lambda c, r: isinstance(r, list) and r and r[0] != "javac-rejected",
     },
 ]
+
+
+# ---- stream 4: string constants of a DEX file through the whole path (string data item -> const-string -> DvMethod source) ----
+def gen_dexconst(rng, tier, ctx):
+    cases = [[[0x61, 0xD83D], [0xD83D, 0xDE00], [0xDE00], [0xDC00, 0xD800], [34, 92, 10, 0, 39], [92, 117, 100, 56, 51, 100]],
+             [[c] for c in (0, 8, 9, 10, 12, 13, 34, 39, 92, 127, 0x7F, 0x80, 0x7FF, 0x800, 0x2028, 0xD7FF, 0xD800, 0xDBFF, 0xDC00, 0xDFFF, 0xE000, 0xFFFF)]]
+    for _ in range(60 if tier == "thorough" else 12):
+        out = []
+        for _ in range(rng.choice((1, 3, 6))):
+            us = []
+            for _ in range(rng.choice((1, 2, 5, 12))):
+                r = rng.random()
+                if r < 0.3:
+                    us.append(rng.choice(INTERESTING[:47]))
+                elif r < 0.5:
+                    us.append(rng.randrange(0xD800, 0xE000))        # surrogates, paired only by chance
+                elif r < 0.6:
+                    c = rng.randrange(0x10000, 0x110000)
+                    us += utf16([c])
+                else:
+                    us.append(rng.randrange(32, 127))
+            out.append(us)
+        cases.append(out)
+    return cases
+
+
+def impl_dexconst(case):
+    from tools.writers.dexwriter import DexBuilder, Code, Str
+    from androguard.core.dex import DEX
+    from androguard.core.analysis.analysis import Analysis
+    from androguard.decompiler.decompile import DvClass, DvMethod
+    strs = ["".join(chr(u) for u in us) for us in case]
+    b = DexBuilder(extra_strings=strs)
+    k = b.add_class("Lp/S;")
+    for j, s in enumerate(strs):
+        k.add_method("m%d" % j, "Ljava/lang/String;", (), access=9, direct=True, code=Code(1, 0, 0, [0x001A, Str(s), 0x0011]))
+    d = DEX(b.build())
+    dx = Analysis(d)
+    by_method, by_class = {}, {}
+    for m in d.get_class("Lp/S;").get_methods():
+        dv = DvMethod(dx.get_method(m))
+        dv.process()
+        by_method[m.get_name()] = [l.strip() for l in dv.get_source().splitlines() if l.strip().startswith("return ")]
+    dc = DvClass(d.get_class("Lp/S;"), dx)
+    dc.process()
+    rets, cur = {}, None
+    for l in dc.get_source().splitlines():
+        l = l.strip()
+        if l.startswith("public static String m") and l.endswith("()"):
+            cur = l[len("public static String "):-2]
+        elif l.startswith("return "):
+            rets.setdefault(cur, []).append(l)
+    out = []
+    for j in range(len(strs)):
+        lines = by_method.get("m%d" % j, [])
+        r = rets.get("m%d" % j, [])
+        out.append([[ord(ch) for ch in l] for l in lines] + [[ord(ch) for ch in r[0]] if len(r) == 1 else None])
+    return out
+
+
+def oracle_dexconst(case, res):
+    if isinstance(res, Err):
+        return "decompiling a method that returns a string constant failed: %s %s" % (res.name, res.msg[:150])
+    for us, lines in zip(case, res):
+        if len(lines) != 2 or lines[1] is None:
+            return "the method returning the constant %r has no single return statement" % (us,)
+        for what, l in zip(("DvMethod.get_source", "DvClass.get_source"), lines):
+            text = "".join(map(chr, l))
+            if not (text.startswith("return ") and text.endswith(";")):
+                return "%s: unexpected statement %r" % (what, text)
+            got = java_lex(utf16(l[len("return "):-1]))
+            if got != us:
+                return "%s writes the DEX string constant with code units %r as %r, which Java reads as %r" % (what, us, text[7:-1], got)
+    return None
+
+
+STREAMS.append({"name": "dex-constants", "gen": gen_dexconst, "impl": impl_dexconst, "pinned": False, "oracle": oracle_dexconst,
+                "nontrivial": lambda c, r: not isinstance(r, Err)})
